@@ -2,8 +2,8 @@ D = "internal/"
 
 CHECK = dict(
     level="exploration",
-    level_text="Generated-input search over mutations of config.dist.yaml, loaded by the package's own parseConfig and validate. Bounded-exhaustive parts: every single-field mutation of an automatically extracted catalogue (349 places x boundary/zero/negative/huge/missing/wrong-enum/dangling-reference values), every (switch or enum, sibling) pair with all values, every pair of sibling integers over boundary values in both orders, every server group made of one or two server variants (each protocol, bound to addresses or interfaces, with fitting and unfitting sections) x the states of its tls section. Rapid part: subsets of 1-4 fields (biased to one), properties of one object together, threshold pairs. An accepted configuration is checked against a hand-listed table of documented requirements, built with the builder's own methods and conversions (rate limiter, connection limiter, caches, filters, GeoIP, TLS, server groups, handlers, unstarted listeners), checked for faithful conversion, and asked to serve an IPv4 and an IPv6 query on every server through the real handler chain and forwarder to a loopback upstream; a rejected one must name a mutated property. Held on N cases is evidence, not proof; the three enumerations are exhaustive only for the listed value sets.",
-    level_note="Start-up steps that need the outside world (backend gRPC, Consul, Redis, filter downloads, listening sockets, web service start) are cut at their first network access; the first address-bound listener of every protocol (plain DNS, DoT, DoH, DoQ, DNSCrypt) is really started on an ephemeral loopback port and queried with a client of its protocol whenever the listener-related sections differ from the distributed file; the other listeners are constructed but not started. A real-listener failure counts only if it repeats with fresh listeners. Sizes above 2^22 entries are not built (memory), no verdict is drawn from elapsed time.",
+    level_text="Generated-input search over mutations of config.dist.yaml, loaded by the package's own parseConfig and validate. Bounded-exhaustive parts: every single-field mutation of an automatically extracted catalogue (349 places x boundary/zero/negative/huge/missing/wrong-enum/dangling-reference values), every (switch or enum, sibling) pair with all values, every pair of sibling integers over boundary values in both orders, every switch with every nested invalid value, every pair of valid alternatives of different sections (flags both ways, other enum values, other forms of sections) with the listeners really started, every server group made of one or two server variants (each protocol, bound to addresses or interfaces, with fitting and unfitting sections) x the states of its tls section. Rapid part: subsets of 1-4 fields (biased to one), properties of one object together, threshold pairs. An accepted configuration is checked against a hand-listed table of documented requirements, built with the builder's own methods and conversions (rate limiter, connection limiter, caches, filters, GeoIP, TLS, server groups, handlers, unstarted listeners), checked for faithful conversion, and asked to serve an IPv4 and an IPv6 query on every server through the real handler chain and forwarder to a loopback upstream; a rejected one must name a mutated property. Held on N cases is evidence, not proof; the three enumerations are exhaustive only for the listed value sets.",
+    level_note="Start-up steps that need the outside world (backend gRPC, Consul, Redis, filter downloads, listening sockets, web service start) are cut at their first network access; the first address-bound listener of every protocol and (as root) all listeners of the first interface-bound plain-DNS server behind the real bind-to-device manager on lo (plain DNS, DoT, DoH, DoQ, DNSCrypt) is really started on an ephemeral loopback port and queried with a client of its protocol whenever the listener-related sections differ from the distributed file; the other listeners are constructed but not started. A real-listener failure counts only if it repeats with fresh listeners. Sizes above 2^22 entries are not built (memory), no verdict is drawn from elapsed time.",
     technique="property-based testing (rapid) + bounded-exhaustive mutation of the distributed configuration, with a requirement table, builder/handler exercise, conversion-fidelity and error-naming oracles",
     assumptions=[
         "yaml.v2, miekg/dns, prometheus client, the kernel's loopback networking and the interface name 'lo' are trusted",
@@ -17,6 +17,7 @@ CHECK = dict(
             dict(name="switches", run="^TestVerifC20Switches$", quick=0, thorough=0, shards_quick=2, shards_thorough=2),
             dict(name="thresholds", run="^TestVerifC20Thresholds$", quick=0, thorough=0, shards_quick=2, shards_thorough=2),
             dict(name="disabled", run="^TestVerifC20DisabledSections$", quick=0, thorough=0, shards_quick=3, shards_thorough=3),
+            dict(name="validpairs", run="^TestVerifC20ValidPairs$", quick=0, thorough=0, shards_quick=6, shards_thorough=6),
             dict(name="protocolsets", run="^TestVerifC20ProtocolSets$", quick=0, thorough=0),
             dict(name="mutate", run="^TestVerifC20Mutate$", quick=4000, thorough=200000, shards_quick=2, shards_thorough=8),
         ]),
